@@ -120,6 +120,27 @@ Lemma store_remove_ok : forall hs s k o d e, own_ids s -> zlookup k (st_objs s) 
 Proof.
   intros hs s k o d e W L H. unfold store_remove in H. rewrite (own_lookup _ _ _ W L) in H. discriminate.
 Qed.
+Lemma zlookup_zremove_none : forall {B} j k (l : list (Z * B)), zlookup j l = None -> zlookup j (zremove k l) = None.
+Proof.
+  induction l as [|[k' v'] l IH]; simpl; intros H; [reflexivity|].
+  destruct (j =? k') eqn:E; [discriminate|]. destruct (k =? k'); [exact H|]. simpl. rewrite E. now apply IH.
+Qed.
+(* _update_identifiable: the only exception is the Conflict it raises itself; object_store.add cannot refuse the new id,
+   because the store held no object under it before the object was taken out *)
+Lemma update_identifiable_exc : forall s k o o' e, update_identifiable s k o o' = Exc e -> e = EHttp "Conflict".
+Proof.
+  intros s k o o' e H. unfold update_identifiable, bind, U_conflict, U_discards, U_readds, http in H.
+  destruct (obj_id o' =? obj_id o); [discriminate|].
+  destruct (zlookup (obj_id o') (st_objs s)) eqn:L; [now inversion H|].
+  unfold store_add, store_discard in H.
+  destruct (obj_id o =? k); cbn [st_objs] in H; rewrite ?(zlookup_zremove_none _ _ _ L), ?L in H; discriminate.
+Qed.
+Lemma put_identifiable_exc : forall fn s k o o' e, put_identifiable fn s k o o' = Exc e -> good e = true.
+Proof.
+  intros fn s k o o' e H. unfold put_identifiable in H.
+  destruct (mem_s "self._update_identifiable" (calls_of fn)); [|discriminate].
+  apply update_identifiable_exc in H. subst. reflexivity.
+Qed.
 Lemma resolve_sm_exc : forall s i e, resolve_sm s i = Exc e -> good e = true.
 Proof.
   intros s i e H. unfold resolve_sm in H. destruct (zlookup i (st_objs s)) as [[]|]; vm_compute in H; done H.
@@ -215,6 +236,7 @@ Ltac leaf :=
   | E : get_sm_ref _ _ = Exc _ |- _ => now apply get_sm_ref_exc in E
   | E : send_file _ _ _ _ = Exc _ |- _ => now apply send_file_exc in E
   | E : guard _ (rekey_update _ _ _ _) _ = Exc _ |- _ => now apply rekey_update_exc in E
+  | E : put_identifiable _ _ _ _ _ = Exc _ |- _ => now apply put_identifiable_exc in E
   | E : guard _ (store_add _ _) _ = Exc _ |- _ => apply store_add_exc in E; [exact E | tauto]
   | E : guard _ (add_referable _ _ _ _) _ = Exc _ |- _ => now apply add_referable_exc in E
   | E : guard H_ns_op (remove_referable _ _) _ = Exc _ |- _ => now apply remove_referable_exc in E
@@ -339,8 +361,7 @@ Proof.
   unfold ok_status in O. intros. lia.
 Qed.
 
-(* the pinned behaviour refutes the unconditional statement: after a PUT that changes the id the
-   object stays filed under its old key, and DELETE then raises KeyError out of the WSGI callable *)
+(* a history in which a PUT changes the id of a submodel, and the DELETE of its old id afterwards *)
 Definition Q0 : query := {| q_limit := QAbsent; q_cursor := QAbsent; q_core := false; q_idshort := None;
                             q_assetids := []; q_semid := None |}.
 Definition rq (rule : string) (m : meth) (sm : idarg) (b : body) : request :=
@@ -355,12 +376,12 @@ Definition delete_renamed : request := rq "/submodels/<base64url:submodel_id>" M
 
 Lemma delete_renamed_ok : req_ok delete_renamed.
 Proof. intros ep F. vm_compute in F. inversion F. subst. discriminate. Qed.
-Lemma no_5xx_refuted :
-  exists rs r, req_ok r /\ status (snd (handle (run (empty false) rs) r)) = 500
-               /\ pay (snd (handle (run (empty false) rs) r)) = PCrash EKey.
-Proof. exists rename_history, delete_renamed. split; [exact delete_renamed_ok | vm_compute; split; reflexivity]. Qed.
-Lemma rename_breaks_own_ids : ~ own_ids (run (empty false) rename_history).
-Proof. intro W. specialize (W 1 _ (or_introl eq_refl)). vm_compute in W. discriminate. Qed.
+(* the object is filed under its new id afterwards: the old id is not found (404, no KeyError), the new one is read *)
+Lemma rename_example : forall b,
+  map fst (st_objs (run (empty b) rename_history)) = [2] /\
+  status (snd (handle (run (empty b) rename_history) delete_renamed)) = 404 /\
+  pay (snd (handle (run (empty b) rename_history) (rq "/submodels/<base64url:submodel_id>" MGet (IdOk 2) BNoCtype))) = PVal (sm_doc 2).
+Proof. intros []; vm_compute; repeat split; reflexivity. Qed.
 
 (* non-vacuity of the hypotheses *)
 Definition example_sm : submodel :=
@@ -474,6 +495,13 @@ Proof.
     apply IH2. intro. apply H1. now right. inversion H2; assumption.
   - simpl. rewrite E. now apply IH.
 Qed.
+Lemma zlookup_zremove_other : forall {B} j k (l : list (Z * B)), j <> k -> zlookup j (zremove k l) = zlookup j l.
+Proof.
+  induction l as [|[k' v'] l IH]; simpl; intros H; [reflexivity|].
+  destruct (k =? k') eqn:E.
+  - apply Z.eqb_eq in E. subst k'. destruct (j =? k) eqn:E2; [apply Z.eqb_eq in E2; congruence | reflexivity].
+  - simpl. destruct (j =? k'); [reflexivity | now apply IH].
+Qed.
 Lemma zlookup_replace_same : forall {B} k (v : B) l, zlookup k l <> None -> zlookup k (zreplace k v l) = Some v.
 Proof.
   induction l as [|[k' v'] l IH]; simpl; intros H; [congruence|].
@@ -572,33 +600,74 @@ Proof.
   rewrite get_unknown; [split; reflexivity|]. cbn [st_objs]. intros y. rewrite zlookup_remove_same by assumption. discriminate.
 Qed.
 
-(* PUT with an unchanged id: what is read afterwards is the merge of the sent document into the
-   stored one (update_from); for a document without nested elements and qualifiers that is the document *)
-Lemma put_existing : forall s i x x', zlookup i (st_objs s) = Some (OSm x) -> st_backed s = false ->
-  handle s (put_sm i x') =
-    (store_set s i (OSm {| sm_id := sm_id x'; sm_ids := sm_ids x'; sm_tok := sm_tok x';
-                           sm_quals := merge_quals (sm_quals x) (sm_quals x');
-                           sm_ch := update_children (sm_ch x) (sm_ch x') |}),
-     {| status := 204; rtype := AccJson; location := None; pay := PEmpty |}).
-Proof.
-  intros s i x x' L B. unfold handle, put_sm. cbn [r_accept rq r_rule r_meth]. route.
-  unfold convert_args, conv_id, need_path, bind. cbn [r_aas r_sm r_cd r_qt r_path rq].
-  cbn [handler endpoint_name]. unfold bind, get_sm, the_id. cbn [r_sm rq]. rewrite L.
-  body "put_submodel".
-  unfold ok, respond, persist, self_persisting. cbn [r_accept rq]. rewrite B.
-  replace (resp_spec "put_submodel" 0) with (204, false, "no", false) by (vm_compute; reflexivity).
+(* PUT /submodels/{id}: the sent document is merged into the stored one (update_from) ... *)
+Definition merged (x x' : submodel) : submodel :=
+  {| sm_id := sm_id x'; sm_ids := sm_ids x'; sm_tok := sm_tok x';
+     sm_quals := merge_quals (sm_quals x) (sm_quals x'); sm_ch := update_children (sm_ch x) (sm_ch x') |}.
+Ltac put_sm_prefix L :=
+  unfold handle, put_sm; cbn [r_accept rq r_rule r_meth]; route;
+  unfold convert_args, conv_id, need_path, bind; cbn [r_aas r_sm r_cd r_qt r_path rq];
+  cbn [handler endpoint_name]; unfold bind, get_sm, the_id; cbn [r_sm rq]; rewrite L;
+  body "put_submodel"; unfold put_identifiable;
+  replace (mem_s "self._update_identifiable" (calls_of "put_submodel")) with true by (vm_compute; reflexivity);
+  cbv beta iota zeta; unfold update_identifiable; cbn [obj_id sm_id].
+Ltac put_sm_suffix :=
+  unfold ok, respond, persist, self_persisting; cbn [r_accept rq];
+  replace (commits "put_submodel") with true by (vm_compute; reflexivity); rewrite andb_false_r;
+  replace (resp_spec "put_submodel" 0) with (204, false, "no", false) by (vm_compute; reflexivity);
   reflexivity.
+(* ... in place when the document carries the id of the stored object (in-memory and local-file stores alike) *)
+Lemma put_existing : forall s i x x', zlookup i (st_objs s) = Some (OSm x) -> sm_id x' = sm_id x ->
+  handle s (put_sm i x') =
+    (store_set s i (OSm (merged x x')), {| status := 204; rtype := AccJson; location := None; pay := PEmpty |}).
+Proof.
+  intros s i x x' L I. put_sm_prefix L.
+  replace (sm_id x' =? sm_id x) with true by (symmetry; apply Z.eqb_eq; exact I). unfold bind. put_sm_suffix.
 Qed.
-Theorem replaced_then_read : forall s i x x', zlookup i (st_objs s) = Some (OSm x) -> st_backed s = false ->
+Theorem replaced_then_read : forall s i x x', zlookup i (st_objs s) = Some (OSm x) -> sm_id x' = sm_id x ->
   let '(s1, r1) := handle s (put_sm i x') in
   status r1 = 204 /\
-  pay (snd (handle s1 (get_sm_rq i))) =
-    PVal (VSm {| sm_id := sm_id x'; sm_ids := sm_ids x'; sm_tok := sm_tok x';
-                 sm_quals := merge_quals (sm_quals x) (sm_quals x');
-                 sm_ch := update_children (sm_ch x) (sm_ch x') |}).
+  pay (snd (handle s1 (get_sm_rq i))) = PVal (VSm (merged x x')).
 Proof.
-  intros s i x x' L B. rewrite (put_existing s i x x' L B). split; [reflexivity|].
+  intros s i x x' L I. rewrite (put_existing s i x x' L I). split; [reflexivity|].
   erewrite get_existing; [reflexivity|]. unfold store_set. cbn [st_objs]. apply zlookup_replace_same. congruence.
+Qed.
+(* ... and filed anew when the document carries another id that no stored object has: the object leaves its old key and
+   is added under the new id (at the end of the listing) *)
+Lemma put_rekeys : forall s i x x', zlookup i (st_objs s) = Some (OSm x) -> sm_id x = i ->
+  sm_id x' <> i -> zlookup (sm_id x') (st_objs s) = None ->
+  handle s (put_sm i x') =
+    ({| st_objs := zremove i (st_objs s) ++ [(sm_id x', OSm (merged x x'))]; st_files := st_files s; st_backed := st_backed s |},
+     {| status := 204; rtype := AccJson; location := None; pay := PEmpty |}).
+Proof.
+  intros s i x x' L I N F. put_sm_prefix L. rewrite I.
+  destruct (Z.eqb_spec (sm_id x') i) as [E|_]; [congruence|].
+  rewrite F. unfold bind, U_discards, U_readds, store_discard, store_add. cbn [obj_id sm_id st_objs].
+  rewrite I, Z.eqb_refl. cbn [st_objs]. rewrite (zlookup_zremove_none _ _ _ F). put_sm_suffix.
+Qed.
+Theorem rekeyed_then_read : forall s i x x', NoDup (map fst (st_objs s)) ->
+  zlookup i (st_objs s) = Some (OSm x) -> sm_id x = i ->
+  sm_id x' <> i -> zlookup (sm_id x') (st_objs s) = None ->
+  let '(s1, r1) := handle s (put_sm i x') in
+  status r1 = 204 /\
+  handle s1 (get_sm_rq i) = (s1, {| status := 404; rtype := AccJson; location := None; pay := PResult "NotFound" |}) /\
+  handle s1 (get_sm_rq (sm_id x')) = (s1, {| status := 200; rtype := AccJson; location := None; pay := PVal (VSm (merged x x')) |}) /\
+  (forall j, j <> i -> j <> sm_id x' -> zlookup j (st_objs s1) = zlookup j (st_objs s)).
+Proof.
+  intros s i x x' ND L I N F. rewrite (put_rekeys s i x x' L I N F). split; [reflexivity|]. split; [|split].
+  - apply get_unknown. cbn [st_objs]. intros y. rewrite zlookup_app_other by congruence.
+    rewrite zlookup_remove_same by assumption. discriminate.
+  - apply get_existing. cbn [st_objs]. apply zlookup_app_new. now apply zlookup_zremove_none.
+  - intros j J1 J2. cbn [st_objs]. rewrite zlookup_app_other by assumption. now apply zlookup_zremove_other.
+Qed.
+(* ... and refused (409, nothing changed) when the other id belongs to a stored object *)
+Theorem rekey_conflict : forall s i x x' o, zlookup i (st_objs s) = Some (OSm x) -> sm_id x = i ->
+  sm_id x' <> i -> zlookup (sm_id x') (st_objs s) = Some o ->
+  handle s (put_sm i x') = (s, {| status := 409; rtype := AccJson; location := None; pay := PResult "Conflict" |}).
+Proof.
+  intros s i x x' o L I N F. put_sm_prefix L. rewrite I.
+  destruct (Z.eqb_spec (sm_id x') i) as [E|_]; [congruence|].
+  rewrite F. reflexivity.
 Qed.
 Lemma merge_quals_nil : forall q, merge_quals [] q = q.
 Proof. intros q. unfold merge_quals. simpl. induction q as [|a q IH]; simpl; [reflexivity|now rewrite IH]. Qed.
@@ -668,72 +737,22 @@ Proof.
     try discriminate; inversion H; subst; assumption.
 Qed.
 
-Definition body_id_prop (r : request) : Prop :=
-  match r_body r with
-  | BVal _ (VSm x) => sm_id x = the_id (r_sm r)
-  | BVal _ (VShell a) => sh_id a = the_id (r_aas r)
-  | BVal _ (VCd c) => cd_id c = the_id (r_cd r)
-  | _ => True
-  end.
-Definition body_id_matches (r : request) : Prop := r_meth r = MPut -> body_id_prop r.
-Definition is_put (ep : endpoint) : bool :=
-  match ep with
-  | ep_put_aas | ep_put_submodel | ep_put_concept_description | ep_put_aas_submodel_refs_submodel => true
-  | _ => false
-  end.
-
-Lemma request_body_origin : forall fn r v, request_body fn r = Ok v ->
-  exists xml v0, r_body r = BVal xml v0 /\ (v = v0 \/ v = strip_value v0).
+(* _update_identifiable keeps every object under its own id: in place if the id stays, filed anew if it changes *)
+Lemma own_update_identifiable : forall s k o o' s', own_ids s -> zlookup k (st_objs s) = Some o ->
+  update_identifiable s k o o' = Ok s' -> own_ids s'.
 Proof.
-  intros fn r v H. unfold request_body in H. destruct (body_spec fn) as [cls mode].
-  destruct (r_body r) eqn:B; try (vm_compute in H; discriminate).
-  - destruct (mem_s cls constructables); vm_compute in H; discriminate.
-  - destruct (negb (mem_s cls constructables)); [discriminate|].
-    destruct (String.eqb (value_class v0) cls).
-    + inversion H. exists xml, v0. destruct (smode_on mode (r_query r)); auto.
-    + destruct xml; vm_compute in H; discriminate.
+  intros s k o o' s' W L H. unfold update_identifiable, bind, U_conflict, U_discards, U_readds, http in H.
+  destruct (obj_id o' =? obj_id o) eqn:E.
+  - inversion H; subst. apply own_set; [exact W|]. apply Z.eqb_eq in E. rewrite E. apply Z.eqb_eq.
+    eapply own_lookup; eassumption.
+  - destruct (zlookup (obj_id o') (st_objs s)); [discriminate|].
+    eapply own_add; [|exact H]. unfold store_discard. destruct (obj_id o =? k); [|exact W].
+    intros k' o2 I. cbn [st_objs] in I. apply W. eapply in_zremove. exact I.
 Qed.
-Lemma find_route_in : forall rs rule m seen e, find_route rs rule m seen = REndpoint e ->
-  exists p ms, In (p, ms, e) rs /\ rule_allows ms m = true.
+Lemma own_put_identifiable : forall fn s k o o' s', mem_s "self._update_identifiable" (calls_of fn) = true ->
+  own_ids s -> zlookup k (st_objs s) = Some o -> put_identifiable fn s k o o' = Ok s' -> own_ids s'.
 Proof.
-  induction rs as [|[[p ms] e'] rs IH]; simpl; intros rule m seen e H; [destruct seen; discriminate|].
-  destruct (String.eqb p rule).
-  - destruct (rule_allows ms m) eqn:A.
-    + inversion H; subst. exists p, ms. split; [now left | exact A].
-    + destruct (IH _ _ _ _ H) as [p' [ms' [I A']]]. exists p', ms'. split; [now right | exact A'].
-  - destruct (IH _ _ _ _ H) as [p' [ms' [I A']]]. exists p', ms'. split; [now right | exact A'].
-Qed.
-Definition put_only (x : string * list string * endpoint) : bool :=
-  let '(_, ms, e) := x in
-  if match e with
-     | ep_put_aas | ep_put_submodel | ep_put_concept_description | ep_put_aas_submodel_refs_submodel => true
-     | _ => false
-     end
-  then match ms with [m0] => String.eqb m0 "PUT" | _ => false end else true.
-Lemma put_routes_check : forallb put_only routes = true.
-Proof. vm_compute. reflexivity. Qed.
-Lemma put_method : forall rule m e, find_route routes rule m false = REndpoint e ->
-  (match e with
-   | ep_put_aas | ep_put_submodel | ep_put_concept_description | ep_put_aas_submodel_refs_submodel => true
-   | _ => false
-   end) = true -> m = MPut.
-Proof.
-  intros rule m e F P. destruct (find_route_in _ _ _ _ _ F) as [p [ms [I A]]].
-  pose proof (proj1 (forallb_forall _ _) put_routes_check _ I) as C. unfold put_only in C. rewrite P in C.
-  destruct ms as [|m0 [|? ?]]; try discriminate C. apply String.eqb_eq in C. subst m0.
-  destruct m; try reflexivity; vm_compute in A; discriminate A.
-Qed.
-
-Lemma body_ids : forall fn r v, body_id_prop r -> request_body fn r = Ok v ->
-  match v with
-  | VSm x => sm_id x = the_id (r_sm r)
-  | VShell a => sh_id a = the_id (r_aas r)
-  | VCd c => cd_id c = the_id (r_cd r)
-  | _ => True
-  end.
-Proof.
-  intros fn r v BM H. destruct (request_body_origin _ _ _ H) as [xml [v0 [B [-> | ->]]]];
-    unfold body_id_prop in BM; rewrite B in BM; destruct v0; simpl; auto.
+  intros fn s k o o' s' C W L H. unfold put_identifiable in H. rewrite C in H. eapply own_update_identifiable; eassumption.
 Qed.
 Lemma get_sm_ref_id : forall a i j, get_sm_ref a i = Ok j -> j = i.
 Proof. unfold get_sm_ref, http. intros a i j H. destruct (zmem i (sh_refs a)); now inversion H. Qed.
@@ -756,57 +775,78 @@ Ltac ownstep W :=
   | |- own_ids (if ?b then _ else _) => destruct b
   | |- own_ids (match ?p with [] => _ | _ :: _ => _ end) => destruct p
   | |- own_ids ?s => first [exact W | eapply own_add; [exact W | eassumption] | eapply own_remove; [exact W | eassumption]
-                           | eapply own_remove; [ | eassumption]]
+                           | eapply own_remove; [ | eassumption]
+                           | eapply own_put_identifiable; [ | exact W | | eassumption];
+                             [vm_compute; reflexivity
+                             | first [apply get_shell_ok; eassumption | apply get_sm_ok; eassumption
+                                     | apply get_cd_ok; eassumption | apply resolve_sm_ok; eassumption]]]
   | |- _ = _ => first [ reflexivity | eapply own_sm_id; eassumption | eapply own_sh_id; eassumption
                       | eapply own_cd_id; eassumption | eapply own_sm_or_nested; eassumption ]
   end.
 
-Lemma own_ids_handler : forall ep s r s' resp, own_ids s -> (is_put ep = true -> r_meth r = MPut) -> body_id_matches r ->
-  handler ep s r = Ok (s', resp) -> own_ids s'.
+Lemma own_ids_handler : forall ep s r s' resp, own_ids s -> handler ep s r = Ok (s', resp) -> own_ids s'.
 Proof.
-  intros ep s r s' resp W PM BM0 H.
-  assert (BM : is_put ep = true -> body_id_prop r) by (intro P; exact (BM0 (PM P))).
-  clear PM BM0.
-  destruct ep; cbn [handler endpoint_name] in H; unfold bind, ok, http, guard in H; try specialize (BM eq_refl).
+  intros ep s r s' resp W H.
+  destruct ep; cbn [handler endpoint_name] in H; unfold bind, ok, http, guard in H.
   all: repeat (bm2; try discriminate).
   all: try (match goal with E : send_file _ _ _ _ = Ok _ |- _ =>
               apply send_file_ok in E; destruct E as [_ E]; subst; exact W end).
   all: try (inversion H; subst; clear H).
   all: try exact W.
   all: repeat (ownstep W).
-  all: match goal with B : request_body _ _ = Ok _ |- _ => pose proof (body_ids _ _ _ BM B) as Hid; cbn beta iota in Hid end.
-  all: try exact Hid.
-  all: match goal with G : get_sm_ref _ _ = Ok _ |- _ => apply get_sm_ref_id in G; subst; exact Hid end.
 Qed.
 
-Theorem own_ids_step : forall s r, own_ids s -> body_id_matches r -> own_ids (fst (handle s r)).
+Theorem own_ids_step : forall s r, own_ids s -> own_ids (fst (handle s r)).
 Proof.
-  intros s r W BM. unfold handle.
+  intros s r W. unfold handle.
   destruct (r_accept r); try exact W.
   all: destruct (r_badhost r); [destruct (catch H_bind (EHttp "BadHost")); exact W|].
   all: destruct (find_route routes (r_rule r) (r_meth r) false) eqn:F; try exact W.
   all: unfold bind; destruct (convert_args r); try exact W.
   all: destruct (handler e s r) as [[s' resp]|x] eqn:H; try exact W.
   all: cbv beta iota; cbn [fst].
-  all: assert (PM : is_put e = true -> r_meth r = MPut) by (intro P; eapply put_method; [exact F | exact P]).
-  all: pose proof (own_ids_handler _ _ _ _ _ W PM BM H) as W'.
+  all: pose proof (own_ids_handler _ _ _ _ _ W H) as W'.
   all: destruct (self_persisting e); [exact W'|].
   all: unfold persist; destruct (st_backed s && negb (commits (endpoint_name e))); [now apply own_files | exact W'].
 Qed.
-Theorem own_ids_history : forall rs s, own_ids s -> Forall body_id_matches rs -> own_ids (run s rs).
+Theorem own_ids_history : forall rs s, own_ids s -> own_ids (run s rs).
 Proof.
-  induction rs as [|r rs IH]; intros s W F; [exact W|]. inversion F; subst. simpl.
-  apply IH; [now apply own_ids_step | assumption].
+  induction rs as [|r rs IH]; intros s W; [exact W|]. simpl. apply IH. now apply own_ids_step.
 Qed.
 Lemma own_ids_empty : forall b, own_ids (empty b).
 Proof. intros b k o []. Qed.
 
 
+Theorem own_ids_reachable : forall rs b k o, In (k, o) (st_objs (run (empty b) rs)) -> obj_id o = k.
+Proof. intros rs b. exact (own_ids_history rs (empty b) (own_ids_empty b)). Qed.
+
+(* C11: no request on a store reached by any history is answered with a 5xx (501 on the unimplemented routes) *)
+Theorem no_5xx_full : forall rs b r, req_ok r ->
+  status (snd (handle (run (empty b) rs) r)) < 500 \/
+  (status (snd (handle (run (empty b) rs) r)) = 501 /\ unimplemented (r_rule r) (r_meth r) = true).
+Proof. intros rs b r RO. apply no_5xx_partial; [exact (own_ids_history rs (empty b) (own_ids_empty b)) | exact RO]. Qed.
+
+(* a store with two submodels: PUT of the first one with a free id re-keys it, with the id of the second one is refused *)
+Definition rekey_state : state :=
+  {| st_objs := [(1, OSm example_sm); (5, OSm (filter_sm 5 8))]; st_files := Files.init; st_backed := true |}.
+Lemma rekey_example :
+  (NoDup (map fst (st_objs rekey_state)) /\ zlookup 1 (st_objs rekey_state) = Some (OSm example_sm) /\
+   zlookup 2 (st_objs rekey_state) = None /\ zlookup 5 (st_objs rekey_state) <> None) /\
+  map fst (st_objs (fst (handle rekey_state (put_sm 1 (filter_sm 2 8))))) = [5; 2] /\
+  handle rekey_state (put_sm 1 (filter_sm 5 8)) =
+    (rekey_state, {| status := 409; rtype := AccJson; location := None; pay := PResult "Conflict" |}).
+Proof.
+  split; [split; [|split; [|split]]|split].
+  - repeat constructor; simpl; intuition discriminate.
+  - reflexivity.
+  - reflexivity.
+  - discriminate.
+  - vm_compute. reflexivity.
+  - vm_compute. reflexivity.
+Qed.
+
 Lemma example_history :
   let rs := [post_sm example_sm; put_sm 1 example_sm; get_sm_rq 1; del_sm 1; get_sm_rq 1] in
-  Forall body_id_matches rs /\ st_objs (run (empty true) rs) = [] /\
+  st_objs (run (empty true) rs) = [] /\
   map (fun r => status (snd (handle (run (empty true) [post_sm example_sm]) r))) rs = [409; 204; 200; 204; 200].
-Proof.
-  split; [|split; vm_compute; reflexivity].
-  repeat (apply Forall_cons; [intro M; first [discriminate M | vm_compute; auto]|]). apply Forall_nil.
-Qed.
+Proof. split; vm_compute; reflexivity. Qed.
